@@ -110,6 +110,11 @@ impl Clone for DalekPublicKey {
     fn clone(&self) -> (r: Self) ensures r == *self { unimplemented!() }
 }
 impl Copy for DalekPublicKey {}
+pub uninterp spec fn spec_dalek_bytes(pk: DalekPublicKey) -> Seq<u8>;
+impl DalekPublicKey {
+    #[verifier::external_body]
+    pub fn to_bytes(&self) -> (r: [u8; 32]) ensures r@ == spec_dalek_bytes(*self) { unimplemented!() }
+}
 #[derive(PartialEq, Eq, Structural)]
 pub struct DalekSignature { pub a: u128, pub b: u128, pub c: u128, pub d: u128 }
 impl Clone for DalekSignature {
